@@ -27,6 +27,11 @@ TRAITS = [
     {"name": "Te", "methods": [{"name": "cbn", "recv": "mut", "args": ["cbu64"], "ret": "u64"},
                                # a function-pointer argument: its name sits inside the declarator
                                {"name": "reg", "recv": "ref", "args": ["fnptr", "u64"], "ret": "u64"}]},
+    # pointer-valued results (`void *`, `const void *`, typed) from by-reference and consuming entries, untyped pointer arguments
+    {"name": "Tf", "methods": [{"name": "raw", "recv": "mut", "args": [], "ret": "vptr"},
+                               {"name": "peek", "recv": "ref", "args": ["cvptr", "vptr"], "ret": "cvptr"},
+                               {"name": "at", "recv": "ref", "args": ["u64"], "ret": "ptr"},
+                               {"name": "into_raw", "recv": "own", "args": [], "ret": "vptr"}]},
 ]
 
 
@@ -104,7 +109,7 @@ def cpp_applicable(model):
     return not (cfg.get("default_container") and not cfg.get("default_context"))
 
 
-def run_tool(tool, fakebin, wd, model, idx, extra_args=None, out_name=None, lang="c"):
+def run_tool(tool, fakebin, wd, model, idx, extra_args=None, out_name=None, lang="c", prior=None):
     md = os.path.join(wd, "m%d%s" % (idx, "" if lang == "c" else "_cpp"))
     os.makedirs(md, exist_ok=True)
     ext = "h" if lang == "c" else "hpp"
@@ -118,6 +123,8 @@ def run_tool(tool, fakebin, wd, model, idx, extra_args=None, out_name=None, lang
         open(cfgp, "w").write("".join('%s = "%s"\n' % (k, v) for k, v in model["config"].items()))
         pre = ["-c", cfgp]
     outp = os.path.join(md, out_name)
+    if prior is not None:
+        open(outp, "wb").write(prior)     # Bindgen!OutputHistory: the path already holds a header of an earlier run
     env = dict(os.environ)
     env["PATH"] = fakebin + ":" + env["PATH"]
     env["FAKE_CBINDGEN_HEADER"] = raw
@@ -173,14 +180,17 @@ def run_c17(c, tier, langs=("c", "cpp")):
                         c.violation("[%s] vtable entry %s::%s of %s %s (%s, %s) has no callable wrapper: expected `%s`%s" % (
                             lang, e["tr"], e["m"], e["owner_kind"], e["owner"], e["cont"], e["ctx"], e["wrapper"],
                             " which exists with parameters %s" % e.get("found_signature") if e["present"] else ""), {"model": model, "entry": e, "dir": md})
-            pc = subprocess.run(cc + ["-O0", "-w", "-ftrivial-auto-var-init=pattern", "-o", os.path.join(md, "driver"), os.path.join(md, dname)], capture_output=True, text=True)
+            # (-Werror=return-type: a wrapper of a non-void entry that does not return the entry's result is rejected here
+            # instead of passing by the accident of a register at -O0)
+            pc = subprocess.run(cc + ["-O0", "-Werror=return-type", "-ftrivial-auto-var-init=pattern", "-o", os.path.join(md, "driver"), os.path.join(md, dname)], capture_output=True, text=True)
             if pc.returncode != 0:
                 # a header that does not compile on its own is C18's subject, not a forwarding error
                 ph = subprocess.run(cc + ["-fsyntax-only", "-x", "c" if lang == "c" else "c++", os.path.join(md, hname)], capture_output=True, text=True)
                 if ph.returncode != 0:
                     c.cov.setdefault("other_property_divergences", []).append({"property": "C18", "what": "processed %s header does not compile on its own" % lang, "model": idx})
                     continue
-                c.violation("[%s] a caller cannot compile calls to the generated wrappers: %s" % (lang, pc.stderr[-600:]), {"model": model, "dir": md})
+                errs = " | ".join(l.strip() for l in pc.stderr.splitlines() if "error" in l)[:600]
+                c.violation("[%s] a caller cannot compile calls to the generated wrappers: %s" % (lang, errs or pc.stderr[-600:]), {"model": model, "dir": md})
                 continue
             pr = subprocess.run([os.path.join(md, "driver")], capture_output=True, text=True, timeout=60)
             if pr.returncode != 0:
@@ -276,8 +286,11 @@ def run_c18(c, tier, langs=("c", "cpp")):
         digests = {hashlib.sha1(first).hexdigest()}
         # the full number of repetitions for the first (richest + covering) models, three for the random tail
         reps = k_runs if idx < 60 else min(k_runs, 3)
+        stale = b"\n/* declarations of an API that has since shrunk */\ntypedef struct StaleThing_ { int x; } StaleThing_;\n" * 3
         for kk in range(reps - 1):
-            _, _, o2, p2 = run_tool(tool, fakebin, wd, model, idx, out_name="out_%d.h" % kk, lang=lang)
+            # Bindgen!OutputHistory: absent / a longer header of another API / a shorter one
+            prior = [None, first + stale, first[:len(first) // 2]][(kk + 1) % 3]
+            _, _, o2, p2 = run_tool(tool, fakebin, wd, model, idx, out_name="out_%d.h" % kk, lang=lang, prior=prior)
             digests.add(hashlib.sha1(open(o2, "rb").read()).hexdigest())
             os.remove(o2)
         if len(digests) != 1:
@@ -285,7 +298,7 @@ def run_c18(c, tier, langs=("c", "cpp")):
             if site in known:
                 c.known(known[site]["id"], known[site]["what"])
             else:
-                c.violation("[%s] %d runs on the same input and configuration produced %d different headers" % (lang, reps, len(digests)), {"model": model, "raw": raw})
+                c.violation("[%s] %d runs on the same input and configuration (output path absent / holding a longer / a shorter earlier header) produced %d different headers" % (lang, reps, len(digests)), {"model": model, "raw": raw})
         # (3) declarations that do not belong to CGlue constructs survive unmodified and in order
         if model["foreign"]:
             if lang == "c":
